@@ -429,6 +429,56 @@ def job_boundaries(n):
                funcs=['util.intervals_to_boundaries', 'util.boundaries_to_intervals'], bounds=dict(segments=n, lattice='1e-5 s'))
 
 
+def job_boundaries_fine(n):
+    """contiguous intervals on the 1e-6 s lattice: the documented rounding to 5 decimals is then a real rounding and distinct
+    boundaries may collapse; intervals_to_boundaries must return the strictly increasing set of rounded boundary values, which
+    boundaries_to_intervals turns back into consecutive pairs"""
+    def build(ctx):
+        # boundaries on the 1e-6 s lattice inside [0, 0.0002] (small integer range: the solver decides the rounding cases quickly)
+        bs = [ctx.gridnum('s_b%d' % i, 1000000) for i in range(n + 1)]
+        ctx.assume(bs[0] >= 0)
+        ctx.assume(bs[n] <= 0.0002)
+        for x, y in zip(bs, bs[1:]):
+            ctx.assume(S._b_cmp('lt')(x, y))
+        return dict(iv=S.array([[bs[i], bs[i + 1]] for i in range(n)]))
+
+    def body(A, inp):
+        iv = inp['iv']
+        raw = [iv[i, 0] for i in range(n)] + [iv[n - 1, 1]]
+        b = U.intervals_to_boundaries(iv)
+        K = len(b)
+        A.observe('boundaries', b)
+        inc = True
+        for k in range(K - 1):
+            inc = A.And(inc, A.xlt(b[k], b[k + 1]))
+        A.require(inc, 'boundaries(1e-6 lattice):strictly-increasing')
+        half = 5e-6 + 1e-12
+        each_out = True
+        for k in range(K):
+            some = False
+            for x in raw:
+                some = A.Or(some, A.xle(abs(b[k] - x), half))
+            each_out = A.And(each_out, some)
+        each_in = True
+        for x in raw:
+            some = False
+            for k in range(K):
+                some = A.Or(some, A.xle(abs(b[k] - x), half))
+            each_in = A.And(each_in, some)
+        A.require(A.And(each_out, each_in), 'boundaries(1e-6 lattice):the-rounded-boundary-values')
+        if K < 2:
+            return        # the whole annotation is shorter than the rounding resolution: nothing left to pair up
+        st, iv2 = A.call(U.boundaries_to_intervals, b)
+        A.require(st == 'ok' and tuple(np.shape(iv2)) == (K - 1, 2), 'boundaries(1e-6 lattice):boundaries_to_intervals-accepts-the-result')
+        if st == 'ok' and tuple(np.shape(iv2)) == (K - 1, 2):
+            ok = True
+            for k in range(K - 1):
+                ok = A.And(ok, A.xeq(iv2[k, 0], b[k]), A.xeq(iv2[k, 1], b[k + 1]))
+            A.require(ok, 'boundaries(1e-6 lattice):consecutive-pairs')
+    return Job('C13', 'boundaries<->intervals[n=%d,1e-6 lattice]' % n, build, body, exact_floats=False, exc_policy='body',
+               funcs=['util.intervals_to_boundaries', 'util.boundaries_to_intervals'], bounds=dict(segments=n, lattice='1e-6 s', span='[0, 0.0002] s'))
+
+
 # ---------------------------------------------------------------- sort_labeled_intervals
 
 def job_sort(n):
@@ -487,6 +537,8 @@ def jobs(tier):
         js.append(job_samples(n, fs, T))
     for n in ((1, 2, 3) if q else (1, 2, 3, 4)):
         js.append(job_boundaries(n))
+    for n in ((1, 2) if q else (1, 2, 3)):
+        js.append(job_boundaries_fine(n))
     for n in ((2, 3) if q else (2, 3, 4)):
         js.append(job_sort(n))
     return js
